@@ -1,0 +1,78 @@
+//go:build verif
+
+// Contracts for package measurement, checked by /verif (pverif). Comments only.
+
+package measurement
+
+// ---- C15: unit conversion ----
+
+// isalias(ut, i, a): a is one of the aliases of unit i of the family.
+//@ spec macro func isalias(ut UnitType, i int, a string) bool = exists j int :: 0 <= j && j < len(ut.Units[i].aliases) && ut.Units[i].aliases[j] == a
+// known(ut, a): a names a unit of this family.
+//@ spec macro func known(ut UnitType, a string) bool = exists i int :: 0 <= i && i < len(ut.Units) && isalias(ut, i, a)
+
+// findByAlias: a unit is returned only for a string that is one of that family's aliases, and then it is
+// (a copy of) the first unit carrying that alias; an unknown string is never treated as a known unit.
+//@ func UnitType.findByAlias arith bv
+//@   ensures unknown: result == nil <==> !known(ut, alias)
+//@   ensures found: result != nil ==> exists i int :: 0 <= i && i < len(ut.Units) && isalias(ut, i, alias)
+//@       && same(result.Factor, ut.Units[i].Factor) && result.CanonicalName == ut.Units[i].CanonicalName
+//@       && forall i2 int :: 0 <= i2 && i2 < i ==> !isalias(ut, i2, alias)
+//@   loop 1
+//@     invariant 0 <= $i && $i <= len(ut.Units)
+//@     invariant forall i2 int :: 0 <= i2 && i2 < $i ==> !isalias(ut, i2, alias)
+//@   loop 2
+//@     invariant 0 <= $i && $i <= len(u.aliases) && 0 <= $i1 && $i1 < len(ut.Units)
+//@     invariant same(u.Factor, ut.Units[$i1].Factor) && u.CanonicalName == ut.Units[$i1].CanonicalName && same_elems(u.aliases, ut.Units[$i1].aliases)
+//@     invariant forall j int :: 0 <= j && j < $i ==> u.aliases[j] != alias
+
+// normunit(u): lower-cased, with a plural "s" stripped when longer than two characters.
+//@ spec func normunit(unit string) string = ite(len(lower(unit)) > 2, trimsuffix(lower(unit), "s"), lower(unit))
+//@ func UnitType.sniffUnit arith bv
+//@   ensures unknown: result == nil <==> !known(ut, normunit(unit))
+//@   ensures found: result != nil ==> exists i int :: 0 <= i && i < len(ut.Units) && isalias(ut, i, normunit(unit))
+//@       && same(result.Factor, ut.Units[i].Factor) && result.CanonicalName == ut.Units[i].CanonicalName
+
+// factorsok: every factor of the family is a positive finite number.
+//@ spec macro func factorsok(ut UnitType) bool = forall i int :: 0 <= i && i < len(ut.Units) ==> ut.Units[i].Factor > 0.0 && !isinf(ut.Units[i].Factor)
+// autoScale: picks a unit with the greatest factor among those that keep the magnitude at or above one.
+//@ func UnitType.autoScale arith bv floatabs=yes
+//@   requires factorsok(ut)
+//@   ensures none: !result2 <==> forall i int :: 0 <= i && i < len(ut.Units) ==> !(value / ut.Units[i].Factor >= 1.0)
+//@   ensures picked: result2 ==> exists i int :: 0 <= i && i < len(ut.Units) && result1 == ut.Units[i].CanonicalName
+//@       && same(result0, value / ut.Units[i].Factor) && value / ut.Units[i].Factor >= 1.0
+//@       && forall j int :: 0 <= j && j < len(ut.Units) && value / ut.Units[j].Factor >= 1.0 ==> ut.Units[j].Factor <= ut.Units[i].Factor
+//@   loop 1
+//@     invariant 0 <= $i && $i <= len(ut.Units) && f >= 0.0 && !isnan(f)
+//@     invariant f == 0.0 ==> forall j int :: 0 <= j && j < $i ==> !(value / ut.Units[j].Factor >= 1.0)
+//@     invariant f > 0.0 ==> exists k int :: 0 <= k && k < $i && same(f, ut.Units[k].Factor) && unit == ut.Units[k].CanonicalName
+//@          && value / ut.Units[k].Factor >= 1.0
+//@     invariant forall j int :: 0 <= j && j < $i && value / ut.Units[j].Factor >= 1.0 ==> ut.Units[j].Factor <= f
+
+// convertUnit: never crosses families and never treats an unknown unit as known.
+//@ func UnitType.convertUnit arith bv floatabs=yes
+//@   requires factorsok(ut)
+//@   ensures family: result2 <==> known(ut, normunit(fromUnitStr))
+//@   ensures unknown: !result2 ==> result0 == 0.0 && result1 == ""
+//@   ensures explicit: result2 && toUnitStr != "minimum" && toUnitStr != "auto" && known(ut, normunit(toUnitStr)) ==>
+//@       exists i int, k int :: 0 <= i && i < len(ut.Units) && 0 <= k && k < len(ut.Units)
+//@         && isalias(ut, i, normunit(fromUnitStr)) && isalias(ut, k, normunit(toUnitStr))
+//@         && same(result0, float64(value) * ut.Units[i].Factor / ut.Units[k].Factor) && result1 == ut.Units[k].CanonicalName
+//@   ensures fallback: result2 && toUnitStr != "minimum" && toUnitStr != "auto" && !known(ut, normunit(toUnitStr)) ==>
+//@       result1 == ut.DefaultUnit.CanonicalName
+//@         && exists i int :: 0 <= i && i < len(ut.Units) && isalias(ut, i, normunit(fromUnitStr))
+//@              && same(result0, float64(value) * ut.Units[i].Factor / ut.DefaultUnit.Factor)
+//@   ensures auto: result2 && (toUnitStr == "minimum" || toUnitStr == "auto") ==>
+//@       result1 == ut.DefaultUnit.CanonicalName || exists k int :: 0 <= k && k < len(ut.Units) && result1 == ut.Units[k].CanonicalName
+
+// Scale: a unit that no family knows is never converted: the value is returned unchanged (as float64)
+// with the requested unit (dropped for the pseudo units count/sample/unit/minimum/auto).
+//@ spec macro func anyfamily(unit string) bool = exists t int :: 0 <= t && t < len(UnitTypes) && known(UnitTypes[t], normunit(unit))
+//@ func Scale arith bv floatabs=yes
+//@   requires forall t int :: 0 <= t && t < len(UnitTypes) ==> factorsok(UnitTypes[t])
+//@   ensures unknown_value: !(value < 0 && -value > 0) && !anyfamily(fromUnit) ==> same(result0, float64(value))
+//@   ensures unknown_unit: !(value < 0 && -value > 0) && !anyfamily(fromUnit) ==>
+//@       result1 == ite(toUnit == "count" || toUnit == "sample" || toUnit == "unit" || toUnit == "minimum" || toUnit == "auto", "", toUnit)
+//@   loop 1
+//@     invariant 0 <= $i && $i <= len(UnitTypes)
+//@     invariant forall t int :: 0 <= t && t < $i ==> !known(UnitTypes[t], normunit(fromUnit))
